@@ -5,6 +5,7 @@ package world
 
 import (
 	"bytes"
+	"context"
 	"errors"
 	"fmt"
 	"io"
@@ -247,8 +248,8 @@ type Origin struct {
 	// authorising transport): the copy carries an Authorization field that changes from call to call, and the
 	// response's Request field points to the copy, as net/http's own transports do.
 	Decorate bool
-	tokSeq  int
-	Toks    map[string]*Tok
+	tokSeq   int
+	Toks     map[string]*Tok
 }
 
 // Tok is the ghost record of one response minted by the origin.
@@ -407,6 +408,11 @@ func (o *Origin) Respond(call *Call, s RespSpec) *http.Response {
 	} else {
 		resp.Body = io.NopCloser(bytes.NewReader(body))
 	}
+	if call.Req != nil {
+		// like the bodies of net/http's own transports: reading fails once the request's context has ended, and
+		// a closed body cannot be read any more
+		resp.Body = &ctxBody{ctx: call.Req.Context(), rc: resp.Body}
+	}
 	if tokName != "" {
 		o.mu.Lock()
 		o.Toks[tokName] = &Tok{Name: tokName, URL: call.URL, ReqHdr: call.Header.Clone(), Status: s.Status, Header: hdr.Clone(), ReqTime: call.At, RespTime: now, Body: body}
@@ -414,6 +420,25 @@ func (o *Origin) Respond(call *Call, s RespSpec) *http.Response {
 	}
 	return resp
 }
+
+// ctxBody ties a response body to the context of the request that produced it.
+type ctxBody struct {
+	ctx    context.Context
+	rc     io.ReadCloser
+	closed bool
+}
+
+func (b *ctxBody) Read(p []byte) (int, error) {
+	if b.closed {
+		return 0, errors.New("http: read on closed response body")
+	}
+	if err := b.ctx.Err(); err != nil {
+		return 0, err
+	}
+	return b.rc.Read(p)
+}
+
+func (b *ctxBody) Close() error { b.closed = true; return b.rc.Close() }
 
 type failingBody struct {
 	data   []byte
